@@ -1228,10 +1228,16 @@ impl<T> Arena<T> {
     pub fn free_node(&mut self, id: NodeId)
         // @props C07 C06 C08 C12 C04
         requires
+            old(self).wf(),
             old(self).has(id),
             !old(self).at(id).stamp.removed(),
-            old(self).fl_ok(),
+            // only a node that is out of every tree is freed (C12)
+            no_links(old(self).at(id)),
         ensures
+            // @ob C01.wf@free_node C01 C02 C12
+            final(self).wf(),
+            // @ob C02.free_node_keeps_rank_witness C02
+            forall|w: Ranks| ranked(old(self).nodes@, w) ==> ranked(final(self).nodes@, w),
             final(self).nodes@.len() == old(self).nodes@.len(),
             // @ob C06.free_node_marks_removed C06 C12
             final(self).at(id).stamp.0 == -old(self).at(id).stamp.0 - 1,
@@ -1246,6 +1252,7 @@ impl<T> Arena<T> {
                     &&& (i != id.idx() && !o.stamp.removed()) ==> n.data == o.data
                     &&& (i != id.idx() && n.data != o.data) ==> (old(self).last_free_slot == Some(i as usize)
                         && final(self).at(id).stamp.can_reuse())
+                    &&& i != id.idx() ==> (n.data is Data) == (o.data is Data)
                 },
             !(final(self).at(id).data is Data),
             // @ob C07.free_node_makes_slot_available_exactly_once C07
@@ -1310,6 +1317,19 @@ impl<T> Arena<T> {
                     lemma_fl_retire(old(self).nodes@, self.nodes@, old(self).first_free_slot, old(self).last_free_slot, fl, id.idx());
                 }
             }
+            let fl0 = choose|fl: Seq<int>| free_list(old(self).nodes@, old(self).first_free_slot, old(self).last_free_slot, fl);
+            assert(self.fl_ok()) by {
+                assert(free_list(self.nodes@, self.first_free_slot, self.last_free_slot, if self.at(id).stamp.can_reuse() {
+                    fl0.push(id.idx())
+                } else {
+                    fl0
+                }));
+            }
+            assert forall|w: Ranks| ranked(old(self).nodes@, w) implies ranked(self.nodes@, w) by {
+                lemma_free_links(old(self).nodes@, self.nodes@, w, id.idx());
+            }
+            let w = choose|w: Ranks| ranked(old(self).nodes@, w);
+            lemma_free_links(old(self).nodes@, self.nodes@, w, id.idx());
         }
     }
     pub fn pop_front_free_node(&mut self) -> (first: Option<usize>)
